@@ -414,14 +414,11 @@ static void wakeup_event_process(void *vp, void *arg)
     struct cmb_process *pp = (struct cmb_process *)vp;
 
     cmb_logger_info(stdout, "Wakes %s signal %" PRIi64, pp->name, (int64_t)arg);
-    cmb_assert_debug(!cmi_slist_is_empty(&(pp->awaits)));
 
-    /* Cannot be waiting for more than one process */
-    const bool found = cmi_process_remove_awaitable(pp,
-                                                    CMI_PROCESS_AWAITABLE_PROCESS,
-                                                    NULL);
-    cmb_assert_debug(found == true);
-
+    /*
+     * The record of what it was waiting for went away when the awaited process
+     * ended, see wake_process_waiters(): that process may be gone by now.
+     */
     struct cmi_coroutine *cp = (struct cmi_coroutine *)pp;
     if (cp->status == CMI_COROUTINE_RUNNING) {
         (void)cmi_coroutine_resume(cp, arg);
@@ -472,16 +469,19 @@ int64_t cmb_process_wait_process(struct cmb_process *awaited)
 
         /*
          * Possibly much later. If we are still registered as waiting, it was
-         * something else (a timer, a resume, a preemption) that woke us up.
-         * Deregister on both sides and cancel any wakeup call already on its
-         * way from the awaited process, so that it cannot reach us in whatever
-         * we do next.
+         * something else (a timer, a resume, a preemption) that woke us up
+         * while the awaited process is still alive: deregister on both sides.
+         * If not, the awaited process has ended and forgotten about us (do not
+         * touch it, it may no longer exist), but its wakeup call may still be on
+         * its way if something else got to us first in that instant: cancel it,
+         * so that it cannot reach us in whatever we do next.
          */
         if (cmi_process_remove_awaitable(me, CMI_PROCESS_AWAITABLE_PROCESS, awaited)) {
             if (!cmi_slist_is_empty(&(awaited->waiters))) {
                 (void)cmi_process_remove_waiter(awaited, me);
             }
-
+        }
+        else if ((sig != CMB_PROCESS_SUCCESS) && (sig != CMB_PROCESS_STOPPED)) {
             (void)cmb_event_pattern_cancel(wakeup_event_process, me, CMB_ANY_OBJECT);
         }
 
@@ -542,6 +542,13 @@ static void wake_process_waiters(struct cmi_slist_head *waiters,
         cmb_assert_debug(pp != NULL);
         const double time = cmb_time();
         const int64_t priority = cmb_process_priority(pp);
+
+        /*
+         * The process it waited for is history from now on and may be
+         * terminated and destroyed before the wakeup call gets through: the
+         * waiter forgets the pointer to it here, not when it wakes up.
+         */
+        (void)cmi_process_remove_awaitable(pp, CMI_PROCESS_AWAITABLE_PROCESS, NULL);
         (void)cmb_event_schedule(wakeup_event_process, pp, (void *)signal,
                                  time, priority);
         cmi_mempool_free(&cmi_process_waitertags, pw);
